@@ -12,7 +12,7 @@ from harness.common import float_lit, zlit, listlit
 from harness.c07 import ph_lit, num_lit, exact, rand_count, rand_frac, REAL_AX
 
 VFILES = ['Model/Phase2.v', 'Gen/GenPhase.v', 'Proofs/PhaseGen.v', 'Model/PhaseOrd.v', 'Model/DecStr.v', 'Proofs/TwoSumExact.v', 'Proofs/Floor.v', 'Proofs/DayFrac.v',
-          'Proofs/DayFrac3.v', 'Proofs/PhaseCmp.v', 'Proofs/PhaseCmpAll.v', 'Proofs/PhaseMul.v', 'Proofs/DivChain.v', 'Proofs/PhaseDiv.v', 'Proofs/PhaseArgmin.v', 'Proofs/PhaseSort.v', 'Proofs/PhaseRemainder.v', 'Proofs/PhaseAdd.v', 'Proofs/PhaseMore.v', 'Proofs/DecStrProofs.v', 'Model/PhaseDivmod.v', 'Gen/GenPhaseOrd.v', 'Proofs/PhaseOrdGen.v', 'Props/C15.v']
+          'Proofs/DayFrac3.v', 'Proofs/DayFracTail.v', 'Proofs/FoldHalf.v', 'Proofs/DayFracFold.v', 'Proofs/PhaseCmp.v', 'Proofs/PhaseCmpAll.v', 'Proofs/PhaseMul.v', 'Proofs/DivChain.v', 'Proofs/PhaseDiv.v', 'Proofs/PhaseArgmin.v', 'Proofs/PhaseSort.v', 'Proofs/PhaseRemainder.v', 'Proofs/PhaseAdd.v', 'Proofs/PhaseMore.v', 'Proofs/DecStrProofs.v', 'Model/PhaseDivmod.v', 'Gen/GenPhaseOrd.v', 'Proofs/PhaseOrdGen.v', 'Props/C15.v']
 TOL = Fr(1, 2 ** 52)
 
 HEADER = '''From Coq Require Import ZArith Bool PrimFloat List String. Import ListNotations.
